@@ -503,26 +503,18 @@ namespace Gowarc
 section
 variable (H : Alg → Bytes → Bytes)
 
-/-- the monadic body of Build -/
-def buildBody (o : Opts) (Ω : Oracles) (vt : Bytes) (vi rt0 : Nat) (c : Bytes) : M Rec := do
-  let rtv ← validateHeader o Ω vi
-  let rt := if rt0 == 0 then rtv else rt0
-  let b ← parseBlock o Ω rt c false
-  validateDigest H o rt b false
-  let h ← M.hdr
-  pure { verTxt := vt, verId := vi, rt := rt, hdr := h, block := b }
-
 theorem build_eq (o : Opts) (Ω : Oracles) (vt : Bytes) (vi rt0 : Nat) (hdr : Fields) (c id : Bytes) :
     build H o Ω vt vi rt0 hdr c id =
-      (match buildBody H o Ω vt vi rt0 c
+      (match buildBody H o Ω vt vi rt0
+        (o.addMissingContentLength && !(if o.addMissingRecordId && !hdr.has (bs "WARC-Record-ID") then hdr.setId (bs "WARC-Record-ID") id else hdr).has (bs "Content-Length")) c
         ⟨(if o.addMissingContentLength && !(if o.addMissingRecordId && !hdr.has (bs "WARC-Record-ID") then hdr.setId (bs "WARC-Record-ID") id else hdr).has (bs "Content-Length")
            then setInt (if o.addMissingRecordId && !hdr.has (bs "WARC-Record-ID") then hdr.setId (bs "WARC-Record-ID") id else hdr) (bs "Content-Length") c.length
            else (if o.addMissingRecordId && !hdr.has (bs "WARC-Record-ID") then hdr.setId (bs "WARC-Record-ID") id else hdr)), []⟩ with
        | (.ok r, st) => ⟨some r, st.fnd, none⟩
        | (.error t, st) => ⟨none, st.fnd, some t⟩) := rfl
 
-theorem buildBody_sim (o : Opts) (Ω : Oracles) (vt : Bytes) (vi rt0 : Nat) (c : Bytes) :
-    Sim (buildBody H (o.uni .warn) Ω vt vi rt0 c) (buildBody H (o.uni .fail) Ω vt vi rt0 c) := by
+theorem buildBody_sim (o : Opts) (Ω : Oracles) (vt : Bytes) (vi rt0 : Nat) (cla : Bool) (c : Bytes) :
+    Sim (buildBody H (o.uni .warn) Ω vt vi rt0 cla c) (buildBody H (o.uni .fail) Ω vt vi rt0 cla c) := by
   unfold buildBody
   simstep
   all_goals first
@@ -535,18 +527,19 @@ theorem build_fail_iff_warn (o : Opts) (Ω : Oracles) (vt : Bytes) (vi rt0 : Nat
     (build H (o.uni .fail) Ω vt vi rt0 hdr c id).err.isSome = true ↔
       ((build H (o.uni .warn) Ω vt vi rt0 hdr c id).err.isSome = true ∨ (build H (o.uni .warn) Ω vt vi rt0 hdr c id).fnd ≠ []) := by
   rw [build_eq, build_eq]
-  have hs := buildBody_sim H o Ω vt vi rt0 c
+  have hs := buildBody_sim H o Ω vt vi rt0 (o.addMissingContentLength && !(if o.addMissingRecordId && !hdr.has (bs "WARC-Record-ID") then hdr.setId (bs "WARC-Record-ID") id else hdr).has (bs "Content-Length")) c
   have e1 : ∀ p, (o.uni p).addMissingContentLength = o.addMissingContentLength := fun _ => rfl
   have e2 : ∀ p, (o.uni p).addMissingRecordId = o.addMissingRecordId := fun _ => rfl
   simp only [e1, e2]
-  generalize (if (o.addMissingContentLength && !Fields.has (if (o.addMissingRecordId && !Fields.has hdr (bs "WARC-Record-ID")) = true then
-      Fields.setId hdr (bs "WARC-Record-ID") id else hdr) (bs "Content-Length")) = true then _ else _ : Fields) = h0
+  generalize (o.addMissingContentLength && !Fields.has (if (o.addMissingRecordId && !Fields.has hdr (bs "WARC-Record-ID")) = true then
+      Fields.setId hdr (bs "WARC-Record-ID") id else hdr) (bs "Content-Length")) = cla at hs ⊢
+  generalize (if cla = true then _ else _ : Fields) = h0
   have hmono := hs.mono ⟨h0, []⟩
   have hsame := hs.same ⟨h0, []⟩
   have hdiff := hs.diff ⟨h0, []⟩
-  cases hw : buildBody H (o.uni .warn) Ω vt vi rt0 c ⟨h0, []⟩ with
+  cases hw : buildBody H (o.uni .warn) Ω vt vi rt0 cla c ⟨h0, []⟩ with
   | mk rw sw =>
-    cases hf : buildBody H (o.uni .fail) Ω vt vi rt0 c ⟨h0, []⟩ with
+    cases hf : buildBody H (o.uni .fail) Ω vt vi rt0 cla c ⟨h0, []⟩ with
     | mk rf sf =>
       rw [hw] at hmono hsame hdiff
       rw [hf] at hsame hdiff
